@@ -176,9 +176,12 @@ def eval_add(rel, absolute, supplied=None):
 SHAPES = {
     "typed-sha256": "sha256:" + "a" * 64, "typed-md5": "md5:" + "b" * 32, "bare32": "c" * 32, "bare40": "d" * 40,
     "bare64": "e" * 64, "bare8": "f" * 8, "bare65": "0" * 65, "three-parts": "a:b:c", "empty": "",
+    # typed entries whose WHOLE text is as long as a bare md5 / sha1 / sha256 digest
+    "typed-len40": "blake2s:" + "1" * 32, "typed-len64": "blake2b:" + "2" * 56, "typed-len32": "sha224:" + "3" * 25,
 }
 SHAPE_EXPECT = {"typed-sha256": ["sha256", "a" * 64], "typed-md5": ["md5", "b" * 32], "bare32": ["md5", "c" * 32],
-                "bare40": ["sha1", "d" * 40], "bare64": ["sha256", "e" * 64]}
+                "bare40": ["sha1", "d" * 40], "bare64": ["sha256", "e" * 64],
+                "typed-len40": ["blake2s", "1" * 32], "typed-len64": ["blake2b", "2" * 56], "typed-len32": ["sha224", "3" * 25]}
 _BASE_TEXT = []
 
 
